@@ -11,15 +11,15 @@ import VProps.C17
 #print axioms V.C18.no_panic_accessors
 #print axioms V.C18.no_panic_sign
 #print axioms V.C18.no_panic_accessors_trusted
-#print axioms V.C18.trusted_roomID_panics
-#print axioms V.C18.sign_panics
-#print axioms V.C18.roomID_after_redact_panics
+#print axioms V.C18.trusted_roomID_ok
+#print axioms V.C18.sign_undecodable_ok
+#print axioms V.C18.roomID_variant_refused
 #print axioms V.C18.resolve_refines
 #print axioms V.C18.resolve_refines_deprecated
 #print axioms V.C18.no_panic_resolve
 #print axioms V.C18.no_panic_resolve_deprecated
 #print axioms V.C18.no_panic_orderings
-#print axioms V.C18.resolve_cycle_panics
+#print axioms V.C18.resolve_cycle_resolves
 #print axioms V.C02.sign_never_panics
 #print axioms V.C06.no_panic
 #print axioms V.C07.no_panic_allowed
